@@ -6,7 +6,7 @@ from pyvc import spec as SP
 from pyvc.sym import Sym
 
 META = {
-    "explanation": "equilibrium_quotient, vec_dot_vec/mat_dot_vec, prodpow, EqSystem.stoichs/eq_constants/stoichs_constants (no rref), and the residual vectors NumSysLin.f, NumSysSquare.f, NumSysLog.f are proved entry by entry (Q_i/K_i - 1, conservation rows B(y - y0), A ln c - ln K, conservation of exp(y)) for every concentration, initial state and constant at fixed homogeneous systems; zero-iff-equilibrium then follows in SMT; the log form's equivalence to the product form is the standard log-product law (5.3).  Row-reduced configurations and the systems handed to pyneqsys by get_neqsys are run natively at exact equilibrium states of four systems (zero there; non-zero at states violating only a quotient / only conservation; Jacobian rank = rank A + rank B, so no independent equation is lost by a reduction); every expected matrix is hand-written (HAND)",
+    "explanation": "equilibrium_quotient, vec_dot_vec/mat_dot_vec, prodpow, EqSystem.stoichs/eq_constants/stoichs_constants (no rref), and the residual vectors NumSysLin.f, NumSysSquare.f, NumSysLog.f are proved entry by entry (Q_i/K_i - 1, conservation rows B(y - y0), A ln c - ln K, conservation of exp(y)) for every concentration, initial state and constant at fixed homogeneous systems; zero-iff-equilibrium then follows in SMT; the log form's equivalence to the product form is the standard log-product law (5.3).  Row-reduced configurations and the systems handed to pyneqsys by get_neqsys are run natively at exact equilibrium states of four systems (zero there; non-zero at states violating only a quotient / only conservation; Jacobian rank = rank A + rank B, so no independent equation is lost by a reduction); every expected matrix is hand-written (HAND); the conservation report (EqSystem.composition_conservation) of one state, of a dict and of batches of 1..2ns+1 states (also exactly ns) is B c per state for states linked to the initial one by reaction extents and for one that is not",
     "trusted_base": ["numpy object-array arithmetic (5.2)", "pyneqsys.symbolic.linear_exprs(A, x, b, rref=False) = [sum_j A_ij x_j - b_i] (5.6; read in the installed source)", "exp/log real functions (5.3)",
                      "pyneqsys SymbolicSys.f_cb / ChainedNeqSys.neqsystems / ConditionalNeqSys.neqsys_factory as the access path to what the root finder is offered", "numpy SVD for the rank of a 30-digit Jacobian"],
     "not_decided": ["row-reduced configurations (pyneqsys linear_rref, sympy rref), NumSysLinRel / NumSysLinTanh (sympy Min/Piecewise/tanh): bounded stand-in",
@@ -14,6 +14,7 @@ META = {
     "assumptions": ["system shapes fixed per harness (symbolic: two homogeneous systems, water/ammonia and a 2:1 complexation with a spectator; native: these, the complexation without its dependent reaction, and O/O2/O3)",
                     "'homogeneous' is read as 'every species in the solution phase' (phase index 0: no suffix, or (aq)); a system written wholly with (g), (l) or (s) suffixes is taken by EqSystem as 'nothing in solution' (all-zero stoichiometry, Q = 1): observed, DESIGN section 9, outside this contract",
                     "at least one equilibrium: NumSysLin.f / NumSysSquare.f refuse a system without equilibria (broadcast error), NumSysLog.f gives the conservation rows: observed, DESIGN section 9",
+                    "states given per substance as a dict of equally long ARRAYS are refused by as_per_substance_array unless their length equals the number of substances, in which case they are read state-major (wrong totals): observed on the pinned tree, not required either way here (report /tmp/str5/C07.md)",
                     "integer-typed numpy states (and 2-D symbolic batches) are refused by equilibrium_quotient (numpy: negative integer powers of integers / object into float64): a refusal, required only never to produce another number"],
 }
 EQ = "chempy._eqsys"
@@ -594,3 +595,91 @@ def _(v):
     iN, iq = keys.index(7), keys.index(0)
     v.prove("trace_violations_stay_visible", abs((tot[iN] - tot0[iN]) + 3e-13) < 1e-20 + 1e-3 * 3e-13 and abs((tot[iq] - tot0[iq]) - 1e-13) < 2e-16 * 1e-7 + 1e-3 * 1e-13,
             detail=repr((tot[iN] - tot0[iN], tot[iq] - tot0[iq])))
+
+
+def _totals_of_many_states(name):
+    @harness("C07", "element_totals_of_many_states." + name, functions=["chempy.equilibria:EqSystem.composition_conservation", "chempy.reactionsystem:ReactionSystem.as_per_substance_array"], kind="data")
+    def _(v):
+        """'carries the same amount of every element and charge as the initial concentrations ... all reaction extents linking them to an initial
+        state': the conservation report of SEVERAL states at once (2-D array, one state per row -- the layout of equilibrium_quotients and of the
+        root finder's results) gives, for each state, the totals B c of THAT state under the key it names, whatever the number of states (one, fewer
+        than, exactly as many as, more than the number of substances): states reached from the initial state by reaction extents (c = c0 + xi A) are
+        reported with the totals of the initial state, a state of the batch with one concentration changed is reported with the totals that follow by
+        hand from the changed entry, and each row alone, and the state given as a dict, are reported like the row of the batch.  A, B hand-written"""
+        import numpy as np
+        from fractions import Fraction as Fr
+        from chempy.chemistry import Equilibrium, Species
+        from chempy.equilibria import EqSystem
+        from collections import OrderedDict
+        subs, eqs, _y, y0, Ks = _exact_equilibrium(name)
+        A, hand = HAND[name]["A"], dict(zip(HAND[name]["keys"], HAND[name]["B"]))
+        ns_, nr = len(subs), len(eqs)
+        assert all(sum(b * n for b, n in zip(row, nu)) == 0 for row in hand.values() for nu in A)
+        c0 = [y0[s] for s in subs]
+
+        def linked(n):
+            # n different states c0 + sum_i xi_i nu_i (exact fractions), extents small enough to stay positive
+            out = []
+            for m in range(n):
+                xi = [Fr((-1) ** (m + i) * (m + 1 + 2 * i), 40 * (n + 2)) for i in range(nr)]
+                st = [c0[j] + sum(x * nu[j] for x, nu in zip(xi, A)) for j in range(ns_)]
+                assert all(x > 0 for x in st)
+                out.append(st)
+            return out
+
+        def is_total(key, got, state):
+            terms = [float(b * x) for b, x in zip(hand[key], state)]
+            return abs(float(got) - math.fsum(terms)) <= 8 * 2.3e-16 * math.fsum(abs(t) for t in terms) + 1e-300
+
+        def report(es, states, init):
+            keys, tot, tot0 = es.composition_conservation(states, init)
+            keys = list(keys)
+            return keys, np.asarray(tot, dtype=float).reshape((len(keys), -1)), np.asarray(tot0, dtype=float).reshape((len(keys), -1))
+        try:
+            es = EqSystem([Equilibrium(r, p, float(K)) for (r, p), K in zip(eqs, Ks)], OrderedDict((k, Species.from_formula(k)) for k in subs))
+        except Exception as ex:
+            v.fail("system_builds", repr(ex)[:200])
+            return
+        init = np.array([float(x) for x in c0])
+        for n in sorted(set((1, 2, ns_ - 1, ns_, ns_ + 1, 2 * ns_ + 1))):
+            tag = "%d_states" % n
+            states = linked(n)
+            arr = np.array([[float(x) for x in st] for st in states])
+            assert arr.shape == (n, ns_)
+            try:
+                keys, tot, tot0 = report(es, arr, init)
+                ok = sorted(keys) == sorted(hand) and tot.shape == (len(keys), n) and tot0.shape == (len(keys), 1)
+                ok = ok and all(is_total(k, tot[i, m], states[m]) and is_total(k, tot[i, m], c0) and is_total(k, tot0[i, 0], c0) for i, k in enumerate(keys) for m in range(n))
+                v.prove(tag + ".linked_by_extents_carry_the_totals_of_the_initial_state", ok, detail=repr((keys, tot.tolist(), tot0.tolist())))
+            except Exception as ex:
+                v.fail(tag + ".linked_by_extents_carry_the_totals_of_the_initial_state", repr(ex)[:200])
+            try:
+                # the last state of the batch with its second concentration doubled: only that state's totals move, by B[k][1] * c[1]
+                bad = [list(st) for st in states]
+                bad[-1][1] = 2 * bad[-1][1]
+                keys, tot, _t0 = report(es, np.array([[float(x) for x in st] for st in bad]), init)
+                ok = sorted(keys) == sorted(hand) and tot.shape == (len(keys), n) and all(is_total(k, tot[i, m], bad[m]) for i, k in enumerate(keys) for m in range(n))
+                moved = [abs(tot[i, n - 1] - float(sum(b * x for b, x in zip(hand[k], c0)))) > 0.5 * float(states[-1][1]) for i, k in enumerate(keys) if hand[k][1] != 0]
+                v.prove(tag + ".a_state_that_does_not_conserve_is_reported_as_such", ok and len(moved) > 0 and all(moved), detail=repr((keys, tot.tolist())))
+            except Exception as ex:
+                v.fail(tag + ".a_state_that_does_not_conserve_is_reported_as_such", repr(ex)[:200])
+            try:
+                # one state at a time (array row, and dict keyed by substance) and the initial state given per state (same layout as the states)
+                keys, tot, _t0 = report(es, arr, init)
+                same = True
+                for m in range(n):
+                    k1, t1, _ = report(es, arr[m], init)
+                    k2, t2, _ = report(es, dict(zip(subs, arr[m])), dict(zip(subs, init)))
+                    same = same and k1 == keys and k2 == keys and t1.shape == t2.shape == (len(keys), 1)
+                    same = same and all(is_total(k, t1[i, 0], states[m]) and is_total(k, t2[i, 0], states[m]) for i, k in enumerate(keys))
+                kb, _tb, tb0 = report(es, arr, np.array([init] * n))
+                same = same and kb == keys and tb0.shape == (len(keys), n) and all(is_total(k, tb0[i, m], c0) for i, k in enumerate(keys) for m in range(n))
+                v.prove(tag + ".each_state_alone_and_as_a_dict_like_its_row_of_the_batch", same, detail=repr((keys, tot.tolist())))
+            except Exception as ex:
+                v.fail(tag + ".each_state_alone_and_as_a_dict_like_its_row_of_the_batch", repr(ex)[:200])
+    return _
+
+
+_totals_of_many_states("ammonia")
+_totals_of_many_states("ozone")
+_totals_of_many_states("two_step_complexation")
